@@ -302,5 +302,48 @@ def run(F, rep, tier):
     from .census import check_casts
     n6 = check_casts(C, set(F.fns), rep, 'R16.6', T.CAST_TABLE, 'conversion')
     rep.floor('R16.6', 'lossy casts in the crate', n6, 15)
+    # ---------------- R16.7
+    rep.rule('R16.7', 'text -> number conversions are arbitrary precision: every str::parse::<T> / from_str_radix in the crate has T = BigInt or f64 '
+             '(the float fallback), except the reviewed machine-typed sites whose failure is reported as an error and never falls back to a float; '
+             'json_decode asks as_i64 before as_f64 (a negative 64-bit integer must not travel through a double)')
+    MACHINE_PARSE = [
+        (r'^core::parse_format_string$', 'usize', 1, 'pad width of a format flag: failure is a parse error'),
+        (r'^decimal::parse_unsigned_decimal_exactly$', 'i32', 1, 'decimal exponent: failure is an error (R16.5 checks the exponent arithmetic)'),
+        (r"^lex::Lexer::<'a>::lex$", 'u32', 1, 'radix prefix of NrDIGITS: range-checked against 2..=36 | 64, failure is an invalid token'),
+    ]
+    npar = 0
+    perp = {}
+    for p_ in sorted(F.bodies_raw):
+        if '::promoted' in p_:
+            continue
+        b_ = F.body(p_)
+        for c in b_.calls:
+            if re.search(r'str>::parse$|from_str_radix$|FromStr>::from_str$', c.target):
+                npar += 1
+                g = c.callee.get('g') or []
+                ty = str(g[0]) if g else (c.target.split(' for ')[-1] if ' for ' in c.target else '?')
+                if re.search(r'from_str_radix$', c.target) and not g:
+                    ty = c.target.rsplit('::', 2)[-2]
+                if ty in ('num::BigInt', 'f64', 'num_bigint::BigInt'):
+                    continue
+                perp.setdefault((C.fn_key(p_), ty), []).append(c)
+    for (fk, ty), lst in sorted(perp.items()):
+        ent = [e for e in MACHINE_PARSE if re.search(e[0], fk) and e[1] == ty]
+        if ent and len(lst) <= ent[0][2]:
+            rep.ok('R16.7', '%s parse::<%s>' % (fk, ty), 'reviewed: ' + ent[0][3])
+        else:
+            rep.viol('R16.7', '%s|parse|%s' % (fk, ty), '%s parses text into the machine type %s: digits beyond its range are rejected or, with a float fallback, silently rounded - number(str(n)) == n must hold for integers of any size' % (fk, ty), lst[0].loc())
+    rep.floor('R16.7', 'text->number parse sites', npar, 12)
+    try:
+        jd = [p_ for p_ in F.fns if p_ == 'json_decode' or p_.endswith('::json_decode')]
+        jb = F.body(jd[0])
+        i64s = [c for c in jb.calls if c.target.endswith('Number::as_i64')]
+        f64s = [c for c in jb.calls if c.target.endswith('Number::as_f64')]
+        if i64s and f64s and all(jb.dominates(i64s[0].bb, f.bb) for f in f64s):
+            rep.ok('R16.7', 'json_decode Number', 'as_i64 first, as_f64 only when that fails')
+        else:
+            rep.viol('R16.7', 'json_decode|Number|as_i64', 'json_decode does not try Number::as_i64 before falling back to as_f64 (as_i64 calls: %d): negative integers beyond 2^53 come back rounded' % len(i64s), jb.loc(0))
+    except (IndexError, CheckError) as e:
+        rep.error('R16.7', 'json_decode not found: %s' % e)
     rep.undecided += ['int(str(n)) == n and the other round trips as equations', 'base64 / gzip / JSON codecs themselves (dependencies)']
     return META
